@@ -737,7 +737,7 @@ func (interp *Interpreter) cfg(root *node, sc *scope, importPath, pkgName string
 					if dest.typ.incomplete {
 						return
 					}
-					if sc.global || sc.isRedeclared(dest) {
+					if (sc.global || sc.isRedeclared(dest)) && dest.ident != "_" {
 						if n.anc != nil && n.anc.anc != nil && (n.anc.anc.kind == forStmt7 || n.anc.anc.kind == rangeStmt) {
 							// check for redefine of for loop variables, which are now auto-defined in go1.22
 							init := n.anc.anc.child[0]
